@@ -24,8 +24,8 @@ type wpBlock struct {
 	ordered bool
 	inl     []wpInline
 	table   [][]wpCell
-	via     int // heading: 0 built-in style id HeadingN, 1 custom style based on HeadingN, 2 style with outline level only
-	listID  int // which list (numId)
+	via     int    // heading: 0 built-in style id HeadingN, 1 custom style based on HeadingN, 2 style with outline level only
+	listID  int    // which list (numId)
 	rawDocx string // when set: the paragraph's inline XML, used instead of inl
 	rawOdt  string
 	useRaw  bool
@@ -166,8 +166,15 @@ func mkDOCXBlocks(blocks []wpBlock, header, footer string) []zipMember {
 
 	var st strings.Builder
 	st.WriteString(`<?xml version="1.0" encoding="UTF-8" standalone="yes"?><w:styles xmlns:w="http://schemas.openxmlformats.org/wordprocessingml/2006/main"><w:style w:type="paragraph" w:default="1" w:styleId="Normal"><w:name w:val="Normal"/></w:style><w:style w:type="paragraph" w:styleId="ListParagraph"><w:name w:val="List Paragraph"/><w:basedOn w:val="Normal"/></w:style>`)
+	// in every second package the heading styles are chained (heading N based on heading N-1, as some templates
+	// have them) and carry no outline level of their own: a style based on heading N still is a heading of level N
+	chained := len(blocks)%2 == 1
 	for l := 1; l <= 9; l++ {
-		fmt.Fprintf(&st, `<w:style w:type="paragraph" w:styleId="Heading%d"><w:name w:val="heading %d"/><w:basedOn w:val="Normal"/><w:pPr><w:outlineLvl w:val="%d"/></w:pPr></w:style>`, l, l, l-1)
+		if chained && l > 1 {
+			fmt.Fprintf(&st, `<w:style w:type="paragraph" w:styleId="Heading%d"><w:name w:val="heading %d"/><w:basedOn w:val="Heading%d"/></w:style>`, l, l, l-1)
+		} else {
+			fmt.Fprintf(&st, `<w:style w:type="paragraph" w:styleId="Heading%d"><w:name w:val="heading %d"/><w:basedOn w:val="Normal"/><w:pPr><w:outlineLvl w:val="%d"/></w:pPr></w:style>`, l, l, l-1)
+		}
 		fmt.Fprintf(&st, `<w:style w:type="paragraph" w:styleId="MyHead%d"><w:name w:val="Chapter Style %c"/><w:basedOn w:val="Heading%d"/></w:style>`, l, 'A'+l, l)
 		fmt.Fprintf(&st, `<w:style w:type="paragraph" w:styleId="Outline%d"><w:name w:val="Plain Outline %c"/><w:basedOn w:val="Normal"/><w:pPr><w:outlineLvl w:val="%d"/></w:pPr></w:style>`, l, 'A'+l, l-1)
 	}
@@ -256,7 +263,12 @@ func mkODTBlocksHF(blocks []wpBlock, header, footer string) []zipMember {
 			fmt.Fprintf(&d, `<text:p text:style-name="Standard">%s</text:p>`, b.odtInner())
 			i++
 		case 1:
-			fmt.Fprintf(&d, `<text:h text:style-name="Heading_20_%d" text:outline-level="%d">%s</text:h>`, b.level, b.level, b.odtInner())
+			// the explicit outline level is the heading's level, whatever level the paragraph style suggests
+			styleLevel := b.level
+			if b.via != 0 {
+				styleLevel = (b.level+b.via)%6 + 1
+			}
+			fmt.Fprintf(&d, `<text:h text:style-name="Heading_20_%d" text:outline-level="%d">%s</text:h>`, styleLevel, b.level, b.odtInner())
 			i++
 		case 2:
 			// a run of list items of the same list: nested text:list by level
